@@ -77,8 +77,8 @@ package slog
 //@ func (*PrintCtx).AddString
 //@   props C02 C04 C05
 //@   auto
-//@   at call (*PrintCtx).pcAppendStringKey assert [C05.field-key] callee.s == s && same(callee.str, name)
-//@   at call (*PrintCtx).pcAppendQuotedStringValue assert [C05.field-value] callee.s == s && same(callee.str, value)
+//@   at call (*PrintCtx).pcAppendStringKey assert [C04.C05.field-key] callee.s == s && same(callee.str, name)
+//@   at call (*PrintCtx).pcAppendQuotedStringValue assert [C04.C05.field-value] callee.s == s && same(callee.str, value)
 
 // ---- C06: colours switched on are switched off again. ghost.ioColor tracks the record buffer only: the
 // string-building helpers (wrapColorAndBg ...) switch on and reset inside the string they return.
